@@ -214,7 +214,7 @@ def run(pid, tier):
                 R.validated()
     if pid == "C07":
         import enginemc
-        enginemc.run_into(R, tier)
+        enginemc.run_into(R, tier, replay=True)
         engine_traces(R, tier, recs, sd)
         import c07garb
         c07garb.run_into(R, tier)
